@@ -245,6 +245,11 @@ func ZzvC08Filter() {
 		}
 	}
 	status := p.filterNodeUsage("n", pod, thr, est, alloc, zzverif.Choice("aggregated", 2) == 1)
+	if status == nil {
+		zzverif.Reach("passes")
+	} else {
+		zzverif.Reach("rejected")
+	}
 	zzverif.Assert(zzverif.Iff(status == nil, pass), "the filter passes exactly when the estimated utilisation, rounded to a whole percent, is at or below the threshold in every thresholded resource")
 	zzverif.Reach("end")
 }
